@@ -84,7 +84,7 @@ class World:
                        "libcall_raises_inside_context", "fault_unwinds_2_levels", "post_fault_ops_executed",
                        "length_context", "frequency_context", "global_set_inside_context", "enforce_probe_inside",
                        "enforce_probe_outside", "mixed_energy_length_nesting", "context_object_reused",
-                       "context_object_reused_under_same_units", "failing_convert", "hamiltonian_modified_in_place_between_reads"]
+                       "context_object_reused_under_same_units", "failing_convert", "hamiltonian_modified_in_place_between_reads", "api_sweep_call"]
     required_faults = ["F1_simfault", "F2_library_call_raises", "F3_unknown_unit"]
     components = {
         "real": ["Manager unit state and conversions", "energy_units / frequency_units / length_units", "set_current_units",
@@ -113,7 +113,7 @@ class World:
     def gen(self, rng, tier):
         n = rng.randint(3, 30)
         kinds = ["enter", "enter", "enter", "exit", "exit", "set", "set", "get", "get", "get", "convert", "libcall", "libcall",
-                 "fault", "badunit", "setglobal", "badconvert"]
+                 "fault", "badunit", "setglobal", "badconvert", "apisweep"]
         faultfree = rng.random() < 0.3
         if faultfree:
             kinds = [k for k in kinds if k not in ("fault", "badunit", "badconvert")]
@@ -148,6 +148,8 @@ class World:
                 ops.append({"op": "convert", "e": round(10 ** rng.uniform(-2.3, 0.3), 6), "a": rng.randrange(16), "b": rng.randrange(16)})
             elif k == "badconvert":
                 ops.append({"op": "badconvert", "how": rng.randrange(4), "a": rng.randrange(16)})
+            elif k == "apisweep":
+                ops.append({"op": "apisweep", "off": rng.randrange(1000), "n": rng.randint(3, 12)})
             elif k == "libcall":
                 ops.append({"op": "libcall", "l": rng.choice(libs)})
             elif k == "setglobal":
@@ -304,7 +306,7 @@ class Runner:
                 raise f
             getattr(self, "op_" + kind)(i, op)
             self.check_units("after op %d (%s)" % (i, kind))
-            if self.depth >= 1 and kind in ("set", "get", "libcall", "convert"):
+            if self.depth >= 1 and kind in ("set", "get", "libcall", "convert", "apisweep"):
                 self.inside_ops += 1
             i += 1
         return i
@@ -422,6 +424,57 @@ class Runner:
         if self.depth >= 1:
             self.ctx.probe("global_set_inside_context")
         self.ctx.cov("setglobal", op["t"], self.depth)
+
+    SWEEP_SKIP = ("plot", "show", "save", "load", "fig", "movie", "print", "log", "copy", "wipe", "clean")
+
+    def op_apisweep(self, i, op):
+        """No library call changes the units that are active for its caller: a seeded selection of ALL public methods
+        that can be called without arguments, on freshly built objects of the main classes, returning or raising."""
+        import contextlib
+        import inspect
+        import io as _io
+        qr = self.qr
+        agg = self.agg(env=True)
+        saved = (self.m.current_units["energy"], self.m.current_units["length"])
+        agg.build()
+        self.m.current_units["energy"], self.m.current_units["length"] = saved       # build itself is judged by its own libcall
+        objs = {"aggregate": agg, "molecule": agg.monomers[0], "hamiltonian": agg.get_Hamiltonian(),
+                "sbi": agg.get_SystemBathInteraction(), "dipole": agg.get_TransitionDipoleMoment(),
+                "timeaxis": self.ta, "frequencyaxis": self.ta.get_FrequencyAxis(),
+                "rdm": agg.get_DensityMatrix(condition_type="thermal", temperature=300)}
+        with qr.energy_units("1/cm"):
+            objs["cf"] = qr.CorrelationFunction(self.ta, dict(ftype="OverdampedBrownian", reorg=30.0, cortime=100.0, T=300, matsubara=10))
+            objs["sd"] = qr.SpectralDensity(self.ta, dict(ftype="OverdampedBrownian", reorg=30.0, cortime=100.0, T=300))
+        cands = []
+        for name in sorted(objs):
+            for mn, meth in inspect.getmembers(objs[name], predicate=inspect.ismethod):
+                if mn.startswith("_") or any(x in mn.lower() for x in self.SWEEP_SKIP):
+                    continue
+                try:
+                    sig = inspect.signature(meth)
+                except Exception:
+                    continue
+                if any(p.default is p.empty and p.kind in (p.POSITIONAL_ONLY, p.POSITIONAL_OR_KEYWORD) for p in sig.parameters.values()):
+                    continue
+                cands.append((name, mn, meth))
+        if not cands:
+            raise HarnessError("API sweep found no callable methods")
+        for j in range(op["n"]):
+            name, mn, meth = cands[(op["off"] + 37 * j) % len(cands)]
+            try:
+                with contextlib.redirect_stdout(_io.StringIO()):
+                    meth()
+                outcome = "returned"
+            except Exception as e:
+                outcome = "raised " + type(e).__name__
+            for t in ("energy", "length"):
+                got = self.m.get_current_units(t)
+                check(equivalent(t, got, self.cur[t]), "library-call-changed-units",
+                      lambda: "op %d: after %s.%s() (%s) the active %s units are %r, they were %r" % (i, name, mn, outcome, t, got, self.cur[t]))
+            self.check_units("after %s.%s()" % (name, mn))
+            self.ctx.probe("api_sweep_call")
+            self.ctx.cov("apisweep", name, mn, outcome.split()[0])
+        self.ctx.ev(i, "apisweep", op["off"], op["n"], len(cands))
 
     def op_badconvert(self, i, op):
         """A conversion that fails (and is caught by the caller) must leave the active units alone."""
